@@ -6,6 +6,7 @@ import (
 	"math/big"
 	"sort"
 	"strconv"
+	"strings"
 	"time"
 
 	cmtproto "github.com/cometbft/cometbft/proto/tendermint/types"
@@ -645,7 +646,9 @@ func (g *Gen) op(op string, v *view) []byte {
 			}
 		}
 		fee := full
-		switch g.r.Pick(6) {
+		switch g.r.Pick(8) {
+		case 6: // just short of the full fee
+			fee = []int64{full - 1, full - full/20, full - full/20 - 1, full * 97 / 100}[g.r.Pick(4)]
 		case 0:
 			fee = full / 2
 		case 1:
@@ -813,7 +816,8 @@ func (g *Gen) op(op string, v *view) []byte {
 			AbiComponents: []*registrytypes.ABIComponent{{Name: "x", FieldType: "uint256"}}, ReportBlockWindow: []uint64{3, 1, 2, 0}[k]}
 		name := names[k]
 		if g.r.Chance(g.P.Hostile) {
-			name = []string{"SPOTPRICE", "spotprice", "TrbBridge", name}[g.r.Pick(4)]
+			// respellings of registered types: letter case, surrounding white space, embedded control characters
+			name = []string{"SPOTPRICE", "spotprice", "TrbBridge", name, " spotprice", "SpotPrice\n", "\ttrbbridge ", "spotprice\x00", strings.ToLower(name) + " ", " " + name}[g.r.Pick(10)]
 		}
 		qd := QueryData(names[k], abiPack([]string{"uint256"}, big.NewInt(int64(1+g.r.Pick(2)))))
 		known := false
